@@ -54,6 +54,9 @@ type Options struct {
 	Known          map[string]bool // known-finding ids (status "known")
 	MaxPaths       int
 	Tier           int // 0 quick, 1 thorough
+	DeadlineS      int // wall-clock budget of one exploration (0 = default by tier)
+	NoOverrides    bool // ignore Program.Overrides in this exploration
+	RealBodies     map[string]bool // functions whose intrinsic is disabled (their real SSA body runs)
 }
 
 type ObKey struct{ Label string }
